@@ -36,15 +36,21 @@ def one(spec, confirm):
         rc, o = sh("git -C /repo worktree add --detach %s HEAD" % wt)
         assert rc == 0, o
         env = dict(os.environ, PYTHONPATH=wt + "/src", PYTHONHASHSEED="0", VERIF_REPO=wt, PYTHONDONTWRITEBYTECODE="1")
+        benign = bool(meta.get("benign"))
         if confirm:
-            res["demo_clean_rc"] = sh(["/venv/bin/python", os.path.join(sd, "demo.py")], env=env, cwd="/tmp")[0]
+            res["demo_clean_rc"], clean_out = sh(["/venv/bin/python", os.path.join(sd, "demo.py")], env=env, cwd="/tmp")
         rc, o = sh("git -C %s apply %s" % (wt, os.path.join(sd, "patch.diff")))
         assert rc == 0, "patch does not apply to HEAD: " + o
         if confirm:
             rc1, o1 = sh(["/venv/bin/python", os.path.join(sd, "demo.py")], env=env, cwd="/tmp")
             res["demo_patched_rc"], res["demo_patched_out"] = rc1, o1[-400:]
             res["baseline_patched"] = sh("cd %s && /venv/bin/python -m pytest -q -p no:cacheprovider --timeout=900 --continue-on-collection-errors 2>&1 | tail -1" % wt, env=env)[1].strip()
-            res["confirmed"] = res["demo_clean_rc"] == 0 and rc1 != 0 and "566 pass" in res["baseline_patched"]
+            if benign:
+                # a harmless refactoring: the demonstration must print the same thing with and without it
+                res["demo_same_output"] = (o1 == clean_out)
+                res["confirmed"] = res["demo_clean_rc"] == 0 and rc1 == 0 and o1 == clean_out and "566 pass" in res["baseline_patched"]
+            else:
+                res["confirmed"] = res["demo_clean_rc"] == 0 and rc1 != 0 and "566 pass" in res["baseline_patched"]
         sh("rsync -a --exclude .git --exclude evidence/replay --exclude .scratch_evidence %s/ %s/" % (V, vc))
         for c in checks:
             t = time.time()
@@ -67,6 +73,8 @@ def one(spec, confirm):
         sh("git -C /repo worktree prune")
     meta["verification"] = res
     json.dump(meta, open(os.path.join(sd, "meta.json"), "w"), indent=1)
+    if meta.get("benign"):
+        return name, {c: ("FALSE ALARM" if r["rc"] != 0 else "quiet") for c, r in res["checks"].items() if c in checks}, res.get("error")
     return name, {c: ("caught" if r["detected"] else "MISSED (rc=%s)" % r["rc"]) for c, r in res["checks"].items() if c in checks}, res.get("error")
 
 
